@@ -69,6 +69,15 @@ pub fn menu() -> Vec<Op> {
             }));
         }
     }
+    // the same dependencies the builder derives from non-root file owners, given by hand
+    for (ctor, name) in [("user", "u1"), ("group", "g1"), ("user", "u2")] {
+        m.push(op(format!("recommends({}({}))", ctor, name), move |s| {
+            s.deps.entry("recommends").or_default().push(DepSpec { ctor, name: name.to_string(), version: String::new() });
+        }));
+    }
+    for off in [19_800, -28_800] {
+        m.push(op(format!("timestamps as chrono DateTime at UTC{:+}s", off), move |s| s.chrono_offset = Some(off)));
+    }
     for (n, t_, ts) in [("A <a@example.com> - 1.0-1", "- first entry\n- second line", 1_400_000_000u32), ("Bé <b@example.com> - 0.9", "- older", 1_300_000_000)] {
         m.push(op(format!("add_changelog_entry({:?})", n), move |s| s.changelog.push((n.to_string(), t_.to_string(), ts))));
     }
